@@ -1247,6 +1247,21 @@ func (fc *FnCtx) box(v Val, t types.Type) *Term {
 			b, u := "box_"+string(v.T.Sort), "unbox_"+string(v.T.Sort)
 			fc.sc.DeclFun(b, []Sort{v.T.Sort}, SInt)
 			fc.sc.DeclFun(u, []Sort{SInt}, v.T.Sort)
+			// re-boxing a value that was just taken out of an interface gives the same payload back
+			// (box and unbox are inverse on payloads carrying this type's tag)
+			if pre := "(" + u + " "; strings.HasPrefix(v.T.S, pre) && strings.HasSuffix(v.T.S, ")") {
+				inner := v.T.S[len(pre) : len(v.T.S)-1]
+				if balanced(inner) {
+					return mk(SInt, inner)
+				}
+			}
+			if !fc.boxInv[string(v.T.Sort)] {
+				if fc.boxInv == nil {
+					fc.boxInv = map[string]bool{}
+				}
+				fc.boxInv[string(v.T.Sort)] = true
+				fc.sc.Assert(mk(SBool, fmt.Sprintf("(forall ((p!q Int)) (! (= (%s (%s p!q)) p!q) :pattern ((%s (%s p!q)))))", b, u, b, u)))
+			}
 			p := fc.sc.Define("boxed", app(SInt, b, v.T))
 			fc.sc.Assert(Eq(app(v.T.Sort, u, p), v.T))
 			return p
@@ -1603,4 +1618,29 @@ func (fr *Frame) posOfBlock(b *ssa.BasicBlock) token.Pos {
 		}
 	}
 	return token.NoPos
+}
+
+
+// balanced: s is one complete s-expression (or an atom)
+func balanced(s string) bool {
+	depth := 0
+	for i, c := range s {
+		switch c {
+		case '(':
+			depth++
+		case ')':
+			depth--
+			if depth < 0 {
+				return false
+			}
+			if depth == 0 && i != len(s)-1 {
+				return false
+			}
+		case ' ':
+			if depth == 0 {
+				return false
+			}
+		}
+	}
+	return depth == 0
 }
